@@ -82,7 +82,7 @@ OpOf(c, ds) == SumDecls(c, ds, Len(ds))
 \* states: basis states and small integer superpositions, as sparse lists << <<index, amplitude>>, ... >>
 D(c) == Size(DimsOf(TypesOf(c)))
 StateCatalogue(c) ==
-    {<<<<0, GOne>>>>, <<<<D(c) - 1, GOne>>>>, <<<<5 % D(c), GOne>>>>, <<<<2, GOne>>>>,
+    {<<<<5 % D(c), GOne>>>>, <<<<2, GOne>>>>,
      <<<<0, GOne>>, <<D(c) - 1, GOne>>>>,
      <<<<1, GOne>>, <<2, <<0, 2>>>>, <<4 % D(c), <<-1, 0>>>>>>,
      <<<<3 % D(c), <<1, 1>>>>, <<5 % D(c), <<2, 0>>>>, <<6 % D(c), <<0, -1>>>>>>}
@@ -220,8 +220,18 @@ GramOf(c, w, b) ==
         dr == D(c) \div dl
     IN TLCEval([r \in 1..dl |-> TLCEval([q \in 1..dl |->
            GSumFn([k \in 1..dr |-> GMul(w[(r - 1) * dr + k], GConj(w[(q - 1) * dr + k]))], dr)])])
-QApply == \E s \in {"A", "B"} : Filled(s) /\ ~Infinite(cfg) /\ \E st \in ApplyStates(cfg), mc \in ApplyMethods :
-    LET v == VecOf(cfg, st)
+\* which method is tried on which state (the full product would only multiply equal cases)
+ApplyCases(c) ==
+    LET Pr == <<<<2, GOne>>>>
+        Gz == <<<<0, GOne>>, <<D(c) - 1, GOne>>>>
+        Ws == <<<<1, GOne>>, <<2, <<0, 2>>>>, <<4 % D(c), <<-1, 0>>>>>>
+    IN {<<Pr, m>> : m \in {x \in ApplyMethods : x[3] = 0 /\ ~x[2]}}
+       \cup {<<Gz, m>> : m \in {<<"naive", FALSE, 0, 1>>, <<"variational", TRUE, 0, 1>>, <<"variationalQR", TRUE, 0, 1>>, <<"SVD", FALSE, 1, 1>>}}
+       \cup {<<Ws, m>> : m \in ApplyMethods \ {<<"naive", FALSE, 0, 1>>, <<"variationalQR", FALSE, 0, 1>>, <<"variationalQR", TRUE, 0, 1>>}}
+QApply == \E s \in {"A", "B"} : Filled(s) /\ ~Infinite(cfg) /\ \E cs \in ApplyCases(cfg) :
+    LET st == cs[1]
+        mc == cs[2]
+        v == VecOf(cfg, st)
         meth == mc[1]
         w == TLCEval(MVec(Get(s).m, v))
     IN (meth \in {"variational", "variationalQR"} => NW(cfg) >= 3) /\      \* the two-site sweep engine needs more than two sites
